@@ -73,8 +73,10 @@ Definition bash_list_line (val : raw) : str :=
   | _ => d ++ B [32;40] ++ replace1 bash_sanitizer (trimmed_description desc) ++ B [41]
   end.
 
-Definition bash_format (e : fenv) (word : str) (m : meta) (values : list raw) : str :=
-  let values := map (fun v => set_value v (trim_prefix (value v) (wbp e))) values in
+(* match.TrimPrefix: under CARAPACE_MATCH=1 the prefix is matched case-insensitively *)
+Definition match_trim (ci : bool) (s p : str) : str := if match_has_prefix ci s p then drop (length p) s else s.
+Definition bash_format (ci : bool) (e : fenv) (word : str) (m : meta) (values : list raw) : str :=
+  let values := map (fun v => set_value v (match_trim ci (value v) (wbp e))) values in
   let last_segment := trim_prefix word (wbp e) in
   let collapse := (1 <? length values) && negb (str_eqb (common_prefix_of display values) []) in
   let values2 :=
